@@ -70,6 +70,10 @@ pub struct RtProgram {
     pub max_instances: u32,
     pub limits: Vec<LimCall>,
     pub steps: Vec<Step>,
+    /// fault: while the handler of the k-th event runs, another thread of the process builds a runtime of its own with
+    /// this start time (it has to wait for the simulation lock until this runtime is gone): (k, start time)
+    #[serde(default)]
+    pub intruder: Option<(u32, u64)>,
 }
 
 // ---------------------------------------------------------------- static expansion
@@ -234,8 +238,37 @@ impl EventLifecycle for App {
     }
 }
 
+struct Intruder {
+    k: usize,
+    count: usize,
+    go: Option<std::sync::mpsc::Sender<()>>,
+    entered: std::sync::Arc<std::sync::atomic::AtomicBool>,
+}
+thread_local! {
+    static INTRUDER: std::cell::RefCell<Option<Intruder>> = const { std::cell::RefCell::new(None) };
+}
+/// Lets the other thread start building its runtime now and gives it time to run into the simulation lock.
+fn intruder_hook() {
+    INTRUDER.with(|i| {
+        let mut i = i.borrow_mut();
+        let Some(c) = i.as_mut() else { return };
+        c.count += 1;
+        if c.count == c.k + 1 {
+            if let Some(go) = c.go.take() {
+                let _ = go.send(());
+                let t0 = std::time::Instant::now();
+                while !c.entered.load(std::sync::atomic::Ordering::SeqCst) && t0.elapsed() < Duration::from_millis(500) {
+                    std::thread::yield_now();
+                }
+                std::thread::sleep(Duration::from_millis(1));
+            }
+        }
+    });
+}
+
 impl Event<App> for Ev {
     fn handle(self, rt: &mut Runtime<App>) {
+        intruder_hook();
         let now = ns_of(SimTime::now());
         rt.app.log.handled.push((self.uid, now));
         if self.uid >= EXT_BASE {
@@ -634,6 +667,44 @@ fn check_c02(p: &RtProgram, insts: &[Inst], roots: &[usize], start: u64, real: &
             }
             Err(pl) => {
                 let _ = crate::take_panic(pl); // a panicking step is C10's statement
+            }
+        }
+    }
+    // another thread of the process builds a runtime while this one is inside a handler: it must wait for the simulation
+    // lock before it touches the global clock, so the handlers of this run keep seeing their own timestamps
+    if let Some((k, bstart)) = p.intruder {
+        let entered = std::sync::Arc::new(std::sync::atomic::AtomicBool::new(false));
+        let (go_tx, go_rx) = std::sync::mpsc::channel::<()>();
+        let e2 = entered.clone();
+        let sc = p.scale.clamp(1, MAX_SCALE);
+        let other = std::thread::spawn(move || {
+            if go_rx.recv().is_err() {
+                return false;
+            }
+            SCALE.with(|s| s.set(u128::from(sc)));
+            e2.store(true, std::sync::atomic::Ordering::SeqCst);
+            let app = App { insts: vec![], specs: vec![], roots: vec![], log: Log::default() };
+            let rt = Builder::seeded(3).quiet().start_time(st(bstart)).build(app);
+            drop(rt);
+            true
+        });
+        let nh = real.handled.len().max(1);
+        INTRUDER.with(|i| *i.borrow_mut() = Some(Intruder { k: k as usize % nh, count: 0, go: Some(go_tx), entered }));
+        let run = run_plain(p, false);
+        INTRUDER.with(|i| *i.borrow_mut() = None);
+        let built = other.join().unwrap_or(false);
+        if built {
+            info.probe("other_thread_built_a_runtime_during_a_handler");
+        }
+        if run.escaped_panic.is_none() {
+            for (uid, clock) in &run.handled {
+                if let Some(inst) = insts.get(*uid) {
+                    if inst.time != *clock {
+                        info.violate(Violation::new("C02", "clock-changed-by-other-thread", format!(
+                            "handler of event {uid} saw SimTime::now() = {clock} ns, scheduled for {} ns, while another thread was building a runtime with start time {bstart} ns", inst.time)));
+                        return;
+                    }
+                }
             }
         }
     }
@@ -1047,7 +1118,10 @@ pub fn generate(prop: &str, rng: &mut Rng, tier: Tier) -> RtProgram {
     // now and then the whole program is stretched: its time unit is not the nanosecond but up to 1000 s, which moves
     // start time, timestamps and bucket width beyond 2^64 ns (584 simulated years) without changing the program
     let scale = if rng.chance(1, 12) { *rng.pick(&[7u64, 1_000, 1_000_000, 1_000_000_007, 1_000_000_000_000, 1_000_000_000_000]) } else { 1 };
-    let mut prog = RtProgram { n, t_ns, scale, start_ns, specs, roots, max_instances, limits: vec![], steps: vec![] };
+    let mut prog = RtProgram { n, t_ns, scale, start_ns, specs, roots, max_instances, limits: vec![], steps: vec![], intruder: None };
+    if prop == "C02" && rng.chance(1, 150) {
+        prog.intruder = Some((rng.below(64) as u32, if rng.chance(1, 2) { 0 } else { rng.below(t_ns.saturating_mul(1000).max(2)) }));
+    }
 
     if prop == "C11" {
         // limits are chosen knowing the timestamps of the program (static expansion)
